@@ -1,0 +1,23 @@
+//go:build verif
+// +build verif
+
+package css_parser
+
+// Thin wrappers (no logic) used by the verification harness in /verif.
+
+func VerifParseHex(text string) (uint32, bool) { return parseHex(text) }
+func VerifCompactHex(v uint32) uint32          { return compactHex(v) }
+func VerifExpandHex(v uint32) uint32           { return expandHex(v) }
+
+func VerifMangleNumber(t string) (string, bool) { return mangleNumber(t) }
+func VerifShiftDot(text string, dotOffset int) (string, bool) {
+	return shiftDot(text, dotOffset)
+}
+func VerifMangleDimension(value string, unit string) (string, string, bool) {
+	return mangleDimension(value, unit)
+}
+
+func VerifShortColorName() map[uint32]string { return shortColorName }
+func VerifColorNameToHex() map[string]uint32 { return colorNameToHex }
+func VerifAlphaFractionTable() string        { return alphaFractionTable }
+func VerifFloatToByte(f float64) uint32      { return floatToByte(f) }
